@@ -116,6 +116,13 @@ def report(anchors, required=(), hits=None):
                 "%s:%s:%s" % (rel, qual, pattern))
             continue
         if not any(ln in hits.get(path, set()) for ln in cands):
+            if not (hits.get(path, set()) & lines):
+                # the function itself was never entered: a refactoring may
+                # legitimately bypass a private helper; starvation is caught by
+                # the monitors' own min_events, so this is reported, not a verdict
+                rep.setdefault("required_in_functions_never_entered", []).append(
+                    "%s:%s:%s" % (rel, qual, pattern))
+                continue
             missing.append("%s:%s: statement %r never executed"
                            % (rel, qual, pattern))
     return rep, missing
